@@ -33,6 +33,7 @@ CONFIGS = {
     'val-plain': '-O1 -g -DNDEBUG -mbmi2',  # the valgrind target: optimised enough, keeps frames
     'thr-dbg': '-O1 -g -mbmi2',
     'thr-rel': '-O2 -g -DNDEBUG -mbmi2',
+    'thr-nobmi2': '-O2 -g -DNDEBUG',
 }
 THREAD_INSTR = '-fsanitize=thread'
 COMMON = '-std=c++20 -w -fno-omit-frame-pointer'
